@@ -134,3 +134,10 @@ def store(ex, st, base, sl_, v, node, base_node):
 
 
 M.store = store
+
+
+@model('np.random.default_rng')
+def m_default_rng(ex, st, args, kwargs, node):
+    seed = args[0] if args else NONE
+    used('np.random.default_rng(seed) -> a fresh Generator determined by the seed (fresh OS entropy for None)')
+    return VGen(('default_rng', seed))
